@@ -154,7 +154,7 @@ func checkDecode(c *vm.Ctx, in []byte) {
 			maxLen, name = 10, "varlong"
 		}
 		rv, rn, rerr := refwire.DecVar(in, maxLen)
-		for srcKind := 0; srcKind < 2; srcKind++ {
+		for srcKind := 0; srcKind < 5; srcKind++ {
 			var consumed int
 			var val uint64
 			var n int64
@@ -165,11 +165,22 @@ func checkDecode(c *vm.Ctx, in []byte) {
 			}
 			bs := &inject.ByteSrc{B: in}
 			pr := &inject.PlainReader{R: bytes.NewReader(in)}
-			if srcKind == 0 {
+			var qr *inject.QuirkReader
+			switch srcKind {
+			case 0:
 				rd = bs
-			} else {
+			case 1:
 				rd = pr
 				sname = "plainreader"
+			case 2:
+				qr = &inject.QuirkReader{B: in, Stutter: true}
+				rd, sname = qr, "plainreader.zero-progress-reads"
+			case 3:
+				qr = &inject.QuirkReader{B: in, DataEOF: true}
+				rd, sname = qr, "plainreader.data-with-eof"
+			default:
+				qr = &inject.QuirkReader{B: in, Stutter: true, DataEOF: true}
+				rd, sname = qr, "plainreader.zero-progress+data-with-eof"
 			}
 			pan := c.Guard(name+"/dec", func() any { return map[string]any{"bytes": vm.Hex(in), "src": sname} }, func() {
 				if kind == 0 {
@@ -185,10 +196,13 @@ func checkDecode(c *vm.Ctx, in []byte) {
 			if pan {
 				continue
 			}
-			if srcKind == 0 {
+			switch {
+			case srcKind == 0:
 				consumed = bs.Pos
-			} else {
+			case srcKind == 1:
 				consumed = int(pr.N)
+			default:
+				consumed = qr.Pos
 			}
 			c.Cover("dec.src." + sname)
 			w := map[string]any{"bytes": vm.Hex(in), "src": sname}
